@@ -1340,8 +1340,8 @@ class Interp:
             else:
                 tname = s.target.id
             start, stop, step = self.unC(rng.start), self.unC(rng.stop), self.unC(rng.step)
-            if not isinstance(step, int) or step not in (1, -1):
-                raise Unsupported("symbolic range with step other than +-1")
+            if not isinstance(step, int) or (step < 1 and step != -1):
+                raise Unsupported("symbolic range with a step other than a positive constant or -1")
             tct = env.ctypes.get(tname)
 
             def mk_idx(v):
@@ -1349,12 +1349,16 @@ class Interp:
                     return CV(self._aliases().get(norm_ctype(tct), norm_ctype(tct)), v)
                 return v
             # empty range => body not executed
-            nonempty = (zint(start) < zint(stop)) if step == 1 else (zint(start) > zint(stop))
-            last = zint(stop) if step == 1 else zint(stop)
+            nonempty = (zint(start) < zint(stop)) if step >= 1 else (zint(start) > zint(stop))
+            last = zint(stop)
 
             def head_bounds(i):
                 if step == 1:
                     return z3.And(zint(start) <= i, i <= z3.If(zint(start) <= zint(stop), zint(stop), zint(start)))
+                if step > 1:
+                    # values start, start+step, ...: the first one >= stop ends the loop
+                    return z3.And(zint(start) <= i, (i - zint(start)) % step == 0,
+                                  z3.Or(i < zint(stop) + step, i == zint(start)))
                 return z3.And(zint(start) >= i, i >= z3.If(zint(start) >= zint(stop), zint(stop), zint(start)))
 
         # (1) invariant holds on entry
@@ -1371,7 +1375,7 @@ class Interp:
             if kind == "range":
                 i = cx.fresh_int(tname)
                 cx.assume(head_bounds(i))
-                cx.assume(i < zint(stop) if step == 1 else i > zint(stop))
+                cx.assume(i < zint(stop) if step >= 1 else i > zint(stop))
                 e0.vars[tname] = mk_idx(i)
                 if tct is not None:
                     lo, hi = int_range(mk_idx(0).ctype)
@@ -1410,7 +1414,7 @@ class Interp:
             if kind == "range":
                 i = cx.fresh_int(tname)
                 cx.assume(head_bounds(i))
-                cx.assume(i >= zint(stop) if step == 1 else i <= zint(stop))
+                cx.assume(i >= zint(stop) if step >= 1 else i <= zint(stop))
                 e0.vars[tname] = mk_idx(i)
                 for txt, g in self.eval_spec_exprs(inv, env):
                     cx.assume(g)
